@@ -1,4 +1,125 @@
-import PintModel.Model.Enable
+import PintModel.Model.Load
+/-!
+# C01 — a file pint passes in strict mode is loadable by Prometheus
+
+`C01_statement`: for every document of the modelled domain (any number of groups and rules), if pint's strict pipeline
+raises no Bug/Fatal problem then `rulefmt.Parse` returns no error.  Both acceptors are models (`Model/Load.lean`),
+each compared with the real code on the same bytes (`loadverdicts`); the leaf validators (durations, PromQL,
+templates, name validity) are the real library functions, evaluated by the harness on the real scalars.
+-/
 namespace Pint.Props.C01
-theorem placeholder : True := trivial
+open Pint.Load
+
+theorem rule_sound (r : RuleD) (h : promRule r = true) : pintRule r = true := by
+  obtain ⟨isNull, isMap, record, alert, expr, rv, rb, ep, f, k, l, a, u, d⟩ := r
+  cases record <;> cases alert <;> cases expr <;>
+    simp_all [promRule, pintRule, promMapBad, mapPresentMap] <;>
+    (cases f <;> cases k <;> simp_all) <;> grind
+
+theorem rules_sound (rs : List RuleD) (h : rs.any promRule = true) : rs.any pintRule = true := by
+  obtain ⟨r, hr, hp⟩ := List.any_eq_true.mp h
+  exact List.any_eq_true.mpr ⟨r, hr, rule_sound r hp⟩
+
+theorem groupOwn_sound (g : GroupD) (h : promGroupOwn g = true) : pintGroupOwn g = true := by
+  unfold promGroupOwn at h
+  unfold pintGroupOwn
+  simp only [Bool.or_eq_true] at h
+  -- every reason Prometheus has is one of pint's
+  rcases h with (((((((((((h | h) | h) | h) | h) | h) | h) | h) | h) | h) | h) | h) | h
+  · simp [h]
+  · simp [h]
+  · simp [h]
+  · have : g.name = .coll := by simpa using h
+    simp [this]
+  · simp [h]
+  · have : g.interval = .invalid := by simpa using h
+    simp [this]
+  · have : g.interval = .coll := by simpa using h
+    simp [this]
+  · have : g.queryOffset = .invalid := by simpa using h
+    simp [this]
+  · have : g.queryOffset = .coll := by simpa using h
+    simp [this]
+  · have : g.limit = .other := by simpa using h
+    simp [this]
+  · simp only [promMapBad, Bool.or_eq_true, Bool.and_eq_true, beq_iff_eq] at h
+    rcases h with h | ⟨hk, hv⟩
+    · simp [h]
+    · simp [mapPresentMap, hk]
+      rcases hv with hv | hv <;> simp [hv]
+  · simp only [Bool.and_eq_true, beq_iff_eq, Bool.or_eq_true] at h
+    simp [mapPresentMap, h.1]
+    rcases h.2 with (hv | hv) | hv <;> simp [hv]
+  · simp [h]
+
+theorem group_sound (g : GroupD) (h : promGroup g = true) : pintGroup g = true := by
+  simp only [promGroup, Bool.and_eq_true, Bool.or_eq_true] at h
+  replace h := h.2
+  simp only [pintGroup, Bool.or_eq_true]
+  rcases h with h | h
+  · exact Or.inl (groupOwn_sound g h)
+  · right
+    cases hr : g.rules with
+    | seq rs => rw [hr] at h; exact rules_sound rs h
+    | absent => rw [hr] at h; simp at h
+    | null => rw [hr] at h; simp at h
+    | notSeq => rw [hr] at h; simp at h
+
+/-- **C01**: no Bug/Fatal from pint's strict pipeline ⇒ Prometheus's loader accepts the document — for every document of
+the modelled domain, with any number of groups and rules. -/
+theorem C01_statement (d : Doc) (h : pintBlocks d = false) : promRejects d = false := by
+  cases hp : promRejects d with
+  | false => rfl
+  | true =>
+    exfalso
+    unfold promRejects at hp
+    unfold pintBlocks at h
+    by_cases he : d.empty = true
+    · simp [he] at hp
+    · simp only [he, Bool.false_eq_true, if_false] at hp h
+      simp only [Bool.or_eq_true, Bool.not_eq_true'] at hp
+      simp only [Bool.or_eq_false_iff, Bool.not_eq_false'] at h
+      obtain ⟨⟨⟨⟨h1, h2⟩, h3⟩, _⟩, h5⟩ := h
+      rcases hp with ((hp | hp) | hp) | hp
+      · rw [h1] at hp; exact absurd hp (by simp)
+      · rw [h2] at hp; exact absurd hp (by simp)
+      · rw [h3] at hp; exact absurd hp (by simp)
+      · cases hg : d.groups with
+        | seq gs =>
+          rw [hg] at hp h5
+          simp only [Bool.or_eq_true] at hp
+          simp only [Bool.or_eq_false_iff] at h5
+          rcases hp with hp | hp
+          · obtain ⟨g, hgm, hgp⟩ := List.any_eq_true.mp hp
+            have := List.any_eq_true.mpr ⟨g, hgm, group_sound g hgp⟩
+            rw [h5.1] at this; exact absurd this (by simp)
+          · rw [h5.2] at hp; exact absurd hp (by simp)
+        | notSeq => rw [hg] at h5; simp at h5
+        | absent => rw [hg] at hp; simp at hp
+        | null => rw [hg] at hp; simp at hp
+
+/-- the converse does not hold, on purpose: pint is stricter (a second YAML document, `limit: ~`, `for: ~`, ...) -/
+example : ∃ d : Doc, pintBlocks d = true ∧ promRejects d = false :=
+  ⟨{ empty := false, isMap := true, unknownKey := false, dupGroups := false, multiDoc := true, groups := .seq [] }, by decide⟩
+
+/-- non-vacuity: a well-formed document passes both -/
+def okRule : RuleD :=
+  { isNull := false, isMap := true, record := .val, alert := .absent, expr := .val, recordValid := true, recordBraces := false, exprParses := true,
+    for_ := .absent, keepFiring := .absent,
+    labels := { kind := .absent, dupKey := false, collValue := false, badName := false, metricName := false, badValue := false, badTemplate := false, nonEmpty := false },
+    annotations := { kind := .absent, dupKey := false, collValue := false, badName := false, metricName := false, badValue := false, badTemplate := false, nonEmpty := false },
+    unknownKey := false, duplicateKey := false }
+def okGroup : GroupD :=
+  { isNull := false, isMap := true, name := .val, nameText := "g", interval := .valid, queryOffset := .absent, limit := .absent,
+    labels := okRule.labels, rules := .seq [okRule], unknownKey := false, duplicateKey := false }
+def okDoc : Doc := { empty := false, isMap := true, unknownKey := false, dupGroups := false, multiDoc := false, groups := .seq [okGroup] }
+example : pintBlocks okDoc = false ∧ promRejects okDoc = false := by decide
+
+/-- the five repaired gaps, as they were: each document passed the old pint and is rejected by Prometheus -/
+example : promRejects { okDoc with dupGroups := true } = true := by decide
+example : promRejects { okDoc with groups := .seq [{ okGroup with name := .absent, rules := .absent }] } = true := by decide
+example : promRejects { okDoc with groups := .seq [{ okGroup with rules := .seq [{ okRule with recordBraces := true }] }] } = true := by decide
+example : promRejects { okDoc with groups := .seq [{ okGroup with labels := { okRule.labels with kind := .map, metricName := true, nonEmpty := true } }] } = true := by decide
+example : promRejects { okDoc with groups := .seq [{ okGroup with rules := .seq [{ okRule with record := .null }] }] } = true := by decide
+
 end Pint.Props.C01
